@@ -10,6 +10,7 @@ NARY = {'or': 'WorkCalendarDisjunction', 'add': 'WorkCalendarSum', 'sub': 'WorkC
         'mul': 'WorkCalendarsMul', 'div': 'WorkCalendarDiv'}
 
 
+BASE_POKE = 19723 * 86400_000_000 + 5 * 86400_000_000      # 2024-01-06, inside the window the cases ask about
 DIRECT = []     # the DirectCalendar objects of the expression, in build order (edited in place by a case's 'edit')
 
 
@@ -31,11 +32,23 @@ def build1(e):
     if k == 'fixed':
         _, u, st, en = e
         return FixedCalendar(num_in(u), from_us(st), from_us(en))
-    if k == 'dated':
-        return DirectCalendar({from_us(t): num_in(v) for t, v in e[1]})
-    if k == 'datedset':
-        c = DirectCalendar({from_us(t): num_in(v) for t, v in e[1]})
-        c.set_units({from_us(t): num_in(v) for t, v in e[2]})
+    if k in ('dated', 'datedset'):
+        # The dict handed to the constructor stays the CALLER's: it is used for a second calendar, which is then edited
+        # in place, and it is changed by the caller afterwards - none of which may show in the calendar of the case.
+        given = {from_us(t): num_in(v) for t, v in e[1]}
+        c = DirectCalendar(given)
+        twin = DirectCalendar(given)
+        if k == 'datedset':
+            more = {from_us(t): num_in(v) for t, v in e[2]}
+            c.set_units(more)
+            more.clear()
+        try:
+            twin.set_units({d: 123.0 for d in list(given)[:2]} | {from_us(BASE_POKE): 77.0})
+        except BaseException:  # noqa - the twin is not part of the case
+            pass
+        for d in list(given)[:1]:
+            given[d] = 4321.0
+        given[from_us(BASE_POKE + 86400_000_000)] = 55.0
         return c
     if k in ('binc', 'binn'):
         _, op, a, b = e
